@@ -105,6 +105,21 @@ PluginAdvance(s) ==
           ELSE Go(s, Fin(s, "running") \o FinOut(s, "outputs", OC[s].beh), "done")
      /\ UNCHANGED mayRun
 
+\* stop_if: once the stop condition is available and true the step is closed at whatever blocking point it has reached;
+\* if its plugin is already executing it is sent the cancel signal and reports cancelled_early (a race with the natural end)
+Stops(s) == "stop" \in DOMAIN OC[s] /\ OC[s].stop /\ Prov(s, "cancelled")
+StopAdvance(s) ==
+  /\ Kind(s) = "plugin" /\ Stops(s) /\ UNCHANGED mayRun
+  /\ \/ /\ pc[s] = "deploy_wait"
+        /\ Go(s, (IF Prov(s, "deploy") THEN Fin(s, "deploy") ELSE Imp(s, "deploy")) \o FinOut(s, "closed", "result")
+                  \o ImpAll(s, <<"enabling", "disabled", "starting", "running", "outputs">>), "done")
+     \/ /\ pc[s] = "enable_wait"
+        /\ Go(s, Imp(s, "enabling") \o FinOut(s, "closed", "result") \o ImpAll(s, <<"starting", "running", "outputs">>), "done")
+     \/ /\ pc[s] = "start_wait"
+        /\ Go(s, Imp(s, "starting") \o FinOut(s, "closed", "result") \o ImpAll(s, <<"running", "outputs">>), "done")
+     \/ /\ pc[s] = "running"
+        /\ Go(s, Fin(s, "running") \o FinOut(s, "outputs", "cancelled_early"), "done")
+
 ForeachAdvance(s) ==
   \/ /\ pc[s] = "enable_wait" /\ Prov(s, "enabling")
      /\ IF OC[s].enabled
@@ -118,7 +133,7 @@ ForeachAdvance(s) ==
           ELSE Go(s, Fin(s, "execute") \o Imp(s, "outputs") \o FinOut(s, "failed", "error"), "done")
      /\ mayRun' = mayRun \cup {s}
 
-Advance(s) == IF Kind(s) = "plugin" THEN PluginAdvance(s) ELSE ForeachAdvance(s)
+Advance(s) == IF Kind(s) = "plugin" THEN (PluginAdvance(s) \/ StopAdvance(s)) ELSE ForeachAdvance(s)
 
 \* nothing can move any more and nothing is hanging in a plugin: the engine's fallback ends the run with an error
 CanMove == (\A s \in Steps : pc[s] = "init") \/ \E s \in Steps : ENABLED Advance(s)
